@@ -307,10 +307,14 @@ class BaseState(ABC):
 
         if isinstance(self.index, int):
             assert isinstance(self.envelope, Envelope)
-            return self.envelope.measure_POVM(operators, self)
+            return self.envelope.measure_POVM(
+                operators, self, destructive=destructive
+            )
         if isinstance(self.index, list) or isinstance(self.index, tuple):
             assert isinstance(self.composite_envelope, CompositeEnvelope)
-            return self.composite_envelope.measure_POVM(operators, self)
+            return self.composite_envelope.measure_POVM(
+                operators, self, destructive=destructive
+            )
 
         assert isinstance(self.expansion_level, ExpansionLevel)
         while self.expansion_level < ExpansionLevel.Matrix:
@@ -354,16 +358,19 @@ class BaseState(ABC):
             self.state = self.state / jnp.trace(self.state)
             self.expansion_level = ExpansionLevel.Matrix
 
-        if not partial:
+        # A destructive measurement consumes the envelope: the other part of the
+        # envelope is measured as well. A non destructive one destroys nothing.
+        if destructive and not partial:
             if isinstance(self.envelope, Envelope):
                 state = (
                     self.envelope.fock
                     if isinstance(self, Polarization)
                     else self.envelope.polarization
                 )
-                out = state.measure()
-                for k, v in out.items():
-                    result[1][k] = v
+                if not state.measured:
+                    out = state.measure(separate_measurement=True, destructive=True)
+                    for k, v in out.items():
+                        result[1][k] = v
 
         if C.contractions and not destructive:
             self.contract()
